@@ -187,7 +187,7 @@ def main(prop, argv):
     mods = []
     for m in _re.finditer(r'From Xr Require Import ([^\n]*)\.\s*(?:\n|$)', prop.imports):
         mods += m.group(1).split()
-    mod_targets = sorted({x.replace('.', '/') + '.vo' for x in mods})
+    mod_targets = sorted({x.replace('.', '/') + '.vo' for x in mods} | set(getattr(prop, 'extra_vo', [])))
     if mod_targets:
         okm, outm = core.coq_make(mod_targets)
         if not okm:
